@@ -234,7 +234,14 @@ def rich_type(doc: Dict[str, Any], rnd: random.Random, depth: int = 0) -> Dict[s
     if k == "enum":
         return _r(rnd.choice(enums))
     if k == "or":
-        return {"kind": "or", "items": [_b("string"), _b(rnd.choice(["integer", "boolean"]))]}
+        if rnd.random() < 0.5:
+            return {"kind": "or", "items": [_b("string"), _b(rnd.choice(["integer", "boolean"]))]}
+        # three or more alternatives, some of which target languages map to the same type
+        # (DocumentUri / URI / string; integer / uinteger)
+        items = [_b(n) for n in rnd.sample(["string", "DocumentUri", "URI", "integer", "uinteger", "boolean", "decimal"], rnd.randint(2, 4))]
+        if structs and rnd.random() < 0.7:
+            items.insert(rnd.randint(0, len(items)), _r(rnd.choice(structs)))
+        return {"kind": "or", "items": items}
     if k == "or_null":
         return {"kind": "or", "items": [_r(rnd.choice(structs)) if structs else _b("string"), _b("null")]}
     if k == "array":
@@ -534,8 +541,20 @@ def add_and_message(doc: Dict[str, Any], rnd: random.Random) -> str:
     return "add_and_message"
 
 
+def add_regexp_union(doc: Dict[str, Any], rnd: random.Random) -> str:
+    """Unions over the RegExp base type (the python plugin has no mapping for it; the others do)."""
+    tag = _fresh(rnd, "")
+    structs = [s["name"] for s in doc["structures"]] or ["LSPAny"]
+    items = [_b("string"), _b("RegExp")] + ([_r(rnd.choice(structs))] if rnd.random() < 0.8 else []) + ([_b("DocumentUri"), _b("URI")] if rnd.random() < 0.4 else [])
+    rnd.shuffle(items)
+    doc["structures"].append({"name": f"SimRegExp{tag}", "properties": [{"name": "pattern", "type": {"kind": "or", "items": items}}, {"name": "plain", "type": _b("RegExp"), "optional": True}]})
+    return "add_regexp_union"
+
+
 PLUGIN_EDITS: Dict[str, List[Callable[[Dict[str, Any], random.Random], str]]] = {
-    "testdata": [add_and_message, add_and_message, add_and_message],
+    "testdata": [add_and_message, add_and_message, add_and_message, add_regexp_union],
+    "dotnet": [add_regexp_union, add_regexp_union],
+    "rust": [add_regexp_union, add_regexp_union],
 }
 
 
